@@ -164,7 +164,10 @@ func Shorten(reg *Registry, m Mapping) mapper.Mapper[*Account] {
 		splitPos := a.Level() - suffix
 		ss := a.Segments()
 		pref, suff := ss[:splitPos], ss[splitPos:]
-		return reg.MustGetPath(append(pref[:level], suff...))
+		mapped := make([]string, 0, level+len(suff))
+		mapped = append(mapped, pref[:level]...)
+		mapped = append(mapped, suff...)
+		return reg.MustGetPath(mapped)
 	}
 }
 
